@@ -6,7 +6,7 @@
    meaning, one of these proofs fails. *)
 From Coq Require Import NArith List Bool Lia.
 From AV Require Import Generated.Table Spec.Vt Spec.Sgr Model.Base Model.Imp Model.Utf8parse Model.Parser
-  Generated.ParserFn Model.Wincon Generated.WinconFn Proofs.ParserGen.
+  Generated.ParserFn Model.Wincon Generated.WinconFn Proofs.ParserGen Proofs.WinconRuns Proofs.WinconSpecRuns.
 Import ListNotations.
 Local Open Scope N_scope.
 
@@ -249,3 +249,56 @@ Qed.
 Theorem translated_extract_next_is_model bs p c :
   g_extract_next bs p c = extract_next bs p c.
 Proof. unfold g_extract_next, extract_next. rewrite g_cap_reset_eq. apply g_wincon_iter_eq. Qed.
+
+(* several calls of extract_next, the parser and the capture carried along *)
+Fixpoint g_extract_chunks (chunks : list (list N)) (p : parser) (c : capture)
+  : option (list (list (sstyle * list N)) * parser * capture) :=
+  match chunks with
+  | [] => Some ([], p, c)
+  | ch :: rest =>
+      match g_extract_next ch p c with
+      | Some (its, p1, c1) =>
+          match g_extract_chunks rest p1 c1 with
+          | Some (itss, p2, c2) => Some (its :: itss, p2, c2)
+          | None => None
+          end
+      | None => None
+      end
+  end.
+
+Theorem translated_extract_chunks_is_model chunks : forall p c,
+  g_extract_chunks chunks p c = extract_chunks chunks p c.
+Proof.
+  induction chunks as [|ch rest IH]; intros p c; cbn [g_extract_chunks extract_chunks]; [reflexivity|].
+  rewrite translated_extract_next_is_model. destruct (extract_next ch p c) as [[[its p1] c1]|]; [|reflexivity].
+  rewrite IH. reflexivity.
+Qed.
+
+(* the SGR decoder inside the translated csi_dispatch: the style the capture holds afterwards *)
+Theorem translated_csi_dispatch_style cap ps :
+  option_map c_style (g_cap_csi_dispatch cap ps [] false 109) = sgr_dispatch (c_style cap) ps.
+Proof.
+  rewrite g_cap_csi_dispatch_eq. cbn [capture_event negb N.eqb Pos.eqb].
+  destruct (sgr_dispatch (c_style cap) ps); reflexivity.
+Qed.
+
+(* hence the theorems about the hand model are theorems about the translated code *)
+Theorem translated_runs_are_spec input :
+  Forall (fun b => b < 256) input -> sgr_events_ok style_default (spec_events input) ->
+  exists its p c,
+    g_extract_next input parser_new capture_default = Some (its, p, c) /\
+    merge_runs its = spec_runs input.
+Proof. intros H1 H2. rewrite translated_extract_next_is_model. exact (runs_are_spec input H1 H2). Qed.
+
+Theorem translated_wincon_chunked chunks :
+  Forall (fun b => b < 256) (concat chunks) ->
+  exists itss its p c,
+    g_extract_chunks chunks parser_new capture_default = Some (itss, p, c) /\
+    g_extract_next (concat chunks) parser_new capture_default = Some (its, p, c) /\
+    flatten (concat itss) = flatten its /\
+    merge_runs (concat itss) = merge_runs its.
+Proof.
+  intros H. rewrite translated_extract_chunks_is_model, translated_extract_next_is_model.
+  destruct (wincon_chunked chunks H) as [itss [its [p [c [A [B [C [_ [_ D]]]]]]]]].
+  exists itss, its, p, c. auto.
+Qed.
